@@ -246,6 +246,12 @@ type Scenario interface {
 	Rule(prop string) string
 }
 
+// L3Wanter is implemented by scenarios some of whose cases carry a fault that exists only at level L3 (the real
+// binary as a child process): such a case is always executed at L3 as well, not only when sampled.
+type L3Wanter interface {
+	WantsL3(c any) bool
+}
+
 // GenConfig carries the tier and the property into generation.
 type GenConfig struct {
 	Tier   string // quick | thorough
